@@ -30,6 +30,30 @@ Stages (round 3 added the last three):
     refused first call; shuffled; reversed).  A case that fails only after others is reported with the shortest
     order found by bisection; `replay('order', {'order': [...]})` re-runs it in a fresh interpreter.
 
+Round 4 (input shapes, aliasing, override gaps, conventions, numeric edges, rare branches):
+  * every fresh-object case names the CLASS it runs on (mutable / immutable twin; continuous / discontinuous) and
+    the CONTAINER of each sequence argument (`datetimes`: list, tuple, generator, iter(), map object; `values`:
+    list, tuple, deque – the constructors take len() of the values) and the ENTRY POINT of the header period
+    (constructor, from_string text, dictionary, its own printed text read back).  The model is fed the same data
+    as plain lists, so the correspondence itself checks that the answer does not depend on the container.
+    Every fourth oracle case is also evaluated on the sibling class and the two answers must be equal (`twin`).
+  * ALIASING: after every derive call the source must be as before; the result is then edited in place (metadata
+    entry, first value) and the source must not change; then the source is edited and the result must not change.
+    In histories a non-adopted result is edited at once and must still be as it was at the end of the history; an
+    abandoned current object is edited after it was replaced (`alias`, `state:metadata`, `alias:later`).
+  * time aggregation / rate of change have an ORACLE of their own (`timeagg`: physics of the units: W over
+    1/timestep h -> kWh, m/s -> m, kg/s -> kg, dC over a day -> degC-days; the inverse; every class incl. Daily and
+    the immutable twins), so a change there is reported with a failing input, not only as a broken tie.
+  * numeric strata: values given as int (not float), magnitudes 1e-12 .. 1e16 judged on their own scale (all
+    tolerances are relative to the data now), every one of the 12 timesteps at the far end of the year (leap and
+    common), odd numbers of sub-steps, (month, hour) keys without minute, float timestep arguments (2.0 == 2).
+  * BRANCHES of the anchored functions are listed above `_branches` and counted from the input alone
+    (`branch:*` counters in the evidence); the fixed corpus `_corpus_round4` reaches each of them on every run.
+  * the in-place cull of a CONTINUOUS collection must leave one value per step of the header period (or be
+    refused): tools/extract/resample_src.py reads off datacollection.py whether the continuous class asserts
+    divisibility (Gen/ResampleSrc.lean); the object machine follows it, the oracle reports the unrepaired code as
+    the recorded finding C13-cont-inplace-cull-nondividing (fixes/C13_continuous_cull_in_place_divisor.patch).
+
 Consumers of every modelled mechanism (each is exercised by a correspondence op or an oracle clause):
   _timestep_cull ............. cull_to_timestep, convert_to_culled_timestep (discontinuous, continuous, immutable
                                twins: cull / history ops cull, convcull)
@@ -43,7 +67,8 @@ Consumers of every modelled mechanism (each is exercised by a correspondence op 
                                data type of ladybug.datatype, cumulative=None/True/False)
   VALIDTIMESTEPS ............. target check of both culls, timestep repair of hourly / mph validation, AnalysisPeriod
   AnalysisPeriod.datetimes ... continuous datetimes, interpolate_holes grid
-  time_aggregated_factor ..... to_time_aggregated, to_time_rate_of_change (hourly, daily)
+  time_aggregated_factor ..... to_time_aggregated, to_time_rate_of_change (hourly continuous / discontinuous, daily,
+                               immutable twins: correspondence agg / rate, oracle timeagg)
   sort + period repair ....... validate_analysis_period of the four classes, fresh and after any history
 """
 import contextlib
@@ -55,7 +80,7 @@ from harness.core import err_name, run_oracle_cases
 
 PROP = 'C13'
 PROOF_MODULES = ['Ladybug.Props.C13']
-GREP_MODULES = ['Ladybug.Model.Resample', 'Ladybug.Model.ResampleObj', 'Ladybug.Proofs.C13Obj', 'Ladybug.Proofs.C13Lemmas', 'Ladybug.Proofs.C13Interp',
+GREP_MODULES = ['Ladybug.Model.Resample', 'Ladybug.Model.ResampleObj', 'Ladybug.Gen.ResampleSrc', 'Ladybug.Proofs.C13Obj', 'Ladybug.Proofs.C13Lemmas', 'Ladybug.Proofs.C13Interp',
                 'Ladybug.Proofs.C13Contain', 'Ladybug.Proofs.C13Holes', 'Ladybug.Drv.C13',
                 'Ladybug.Model.AP', 'Ladybug.Model.Cal', 'Ladybug.Py', 'Ladybug.DrvCore']
 RULE = ('correspondence: header periods from a boundary product (one day / few days / months / annual / '
@@ -69,7 +94,11 @@ RULE = ('correspondence: header periods from a boundary product (one day / few d
         'sources incl. (current, target) timestep pairs where the target does not divide the current one; '
         'histories of 3-10 ops on one hourly collection (class x mutability x flag route x all 12 timesteps x leap / '
         'wrapping; templates flag_then_validate, slot, refused_first, twice, set_then_derive, random) and on the keyed '
-        'classes; process-order runs in fresh interpreters; a case is non-trivial '
+        'classes; every fresh-object case on a named class (mutable / immutable twin) with the sequence arguments as '
+        'list / tuple / deque / generator / iter / map and the header period from the constructor, text, dictionary or '
+        'its own printed form; values as int or float, magnitudes 1e-12..1e16, all 12 timesteps at the year end; '
+        'time aggregation of five rate families on continuous / discontinuous / daily collections; every branch of the '
+        'anchored functions counted from the input (branch:* counters); process-order runs in fresh interpreters; a case is non-trivial '
         'when the implementation returns a value; distinct = distinct (op, input)')
 TRUSTED_BASE = [
     'hand-written object machine Model/ResampleObj.lean (hourly collections with the `_datetimes` slot, 13 ops, '
@@ -85,7 +114,9 @@ TRUSTED_BASE = [
     'the AnalysisPeriod constructor and enumeration are those of the C04 model (Model/AP.lean, theorems '
     'C04_*), DateTime fields those of the C08 model (Model/Cal.lean)',
     'unit conversion inside to_time_aggregated/to_time_rate_of_change (to_unit) belongs to C06; only the '
-    'factor is modelled here',
+    'factor is modelled here (the oracle `timeagg` checks the aggregated amounts against the physics of the base units)',
+    'whether HourlyContinuousCollection.convert_to_culled_timestep asserts divisibility is read off the source by '
+    'tools/extract/resample_src.py (one Boolean, Gen/ResampleSrc.lean); the machine is proved for both values',
 ]
 ASSUMPTIONS = [
     'all DateTime objects of one hourly collection carry the same leap flag, equal to the header flag '
@@ -133,9 +164,68 @@ def _ap_line(ap):
     return '%d %d %d %d %d %d %d %s' % (ap[0], ap[1], ap[2], ap[3], ap[4], ap[5], ap[6], _b(ap[7]))
 
 
-def _mk_ap(ap):
+AP_SHAPES = ('ctor', 'string', 'dict', 'repr')
+
+
+def _mk_ap(ap, shape='ctor'):
+    """The header period, built through one of the public entry points: the constructor, the text form
+    (`from_string`, one- and two-digit fields as they come, `*` for a leap year), a dictionary, or the
+    text the period prints for itself read back."""
     from ladybug.analysisperiod import AnalysisPeriod
-    return AnalysisPeriod(ap[0], ap[1], ap[2], ap[3], ap[4], ap[5], ap[6], bool(ap[7]))
+    if shape == 'string':
+        return AnalysisPeriod.from_string('%d/%d to %d/%d between %d and %d @%d%s' % (
+            ap[0], ap[1], ap[3], ap[4], ap[2], ap[5], ap[6], '*' if ap[7] else ''))
+    if shape == 'dict':
+        return AnalysisPeriod.from_dict({'st_month': ap[0], 'st_day': ap[1], 'st_hour': ap[2], 'end_month': ap[3],
+                                         'end_day': ap[4], 'end_hour': ap[5], 'timestep': ap[6],
+                                         'is_leap_year': bool(ap[7])})
+    a = AnalysisPeriod(ap[0], ap[1], ap[2], ap[3], ap[4], ap[5], ap[6], bool(ap[7]))
+    if shape == 'repr':
+        return AnalysisPeriod.from_string(str(a))
+    return a
+
+
+SEQ_SHAPES = ('list', 'tuple', 'gen', 'iter', 'map')       # any iterable: `datetimes`
+SIZED_SHAPES = ('list', 'tuple', 'deque')                  # sized iterables: `values` (len() is taken)
+
+
+def _as_shape(seq, shape):
+    """The same items in another container: the code must not depend on the container type of an
+    argument, nor iterate a one-shot iterable twice."""
+    seq = list(seq)
+    if shape == 'tuple':
+        return tuple(seq)
+    if shape == 'gen':
+        return (x for x in seq)
+    if shape == 'iter':
+        return iter(seq)
+    if shape == 'map':
+        return map(lambda x: x, seq)
+    if shape == 'deque':
+        import collections
+        return collections.deque(seq)
+    return seq
+
+
+def _pick_shapes(rng, c, p=0.45):
+    """Generator side: container shapes of the sequence arguments, the entry point of the header period,
+    the immutable twin.  Plain lists / the constructor / the mutable class stay the most frequent."""
+    if rng.random() < p:
+        c['dshape'] = rng.choice(SEQ_SHAPES)
+    if rng.random() < p:
+        c['vshape'] = rng.choice(SIZED_SHAPES)
+    if rng.random() < p:
+        c['apshape'] = rng.choice(AP_SHAPES)
+    if rng.random() < 0.3:
+        c['imm'] = True
+    return c
+
+
+def _count_shapes(ctx, op, c):
+    ctx.count('shape:datetimes:%s' % c.get('dshape', 'list'))
+    ctx.count('shape:values:%s' % c.get('vshape', 'list'))
+    ctx.count('shape:period:%s' % c.get('apshape', 'ctor'))
+    ctx.count('twin:%s:%s' % (op, 'immutable' if c.get('imm') else 'mutable'))
 
 
 def _ap_fields(a):
@@ -187,10 +277,37 @@ def _cumulative_type_names():
     return [n for n in _all_type_names() if _kind_flags(n)[0]]
 
 
-def _header(ap, kind='point'):
+def _header(ap, kind='point', apshape='ctor', unit=None):
     from ladybug.header import Header
     t = _type_of(kind)()
-    return Header(t, t.units[0], _mk_ap(ap), {'k': 'v'})
+    return Header(t, unit or t.units[0], _mk_ap(ap, apshape), {'k': 'v'})
+
+
+def _hourly_cls(cont, imm):
+    import ladybug.datacollection as dc
+    import ladybug.datacollectionimmutable as di
+    if cont:
+        return di.HourlyContinuousCollectionImmutable if imm else dc.HourlyContinuousCollection
+    return di.HourlyDiscontinuousCollectionImmutable if imm else dc.HourlyDiscontinuousCollection
+
+
+def _key_cls(name, imm):
+    import ladybug.datacollection as dc
+    import ladybug.datacollectionimmutable as di
+    return getattr(di, name + 'Immutable') if imm else getattr(dc, name)
+
+
+def _build_disc(c, values, moys, dl, kind='point'):
+    """A discontinuous hourly collection (or its immutable twin) from plain numbers, the sequence
+    arguments in the container shapes the case names."""
+    cls = _hourly_cls(False, c.get('imm'))
+    return cls(_header(c['ap'], kind, c.get('apshape', 'ctor')), _as_shape(values, c.get('vshape', 'list')),
+               _as_shape([_mk_dt(dl, m) for m in moys], c.get('dshape', 'list')))
+
+
+def _build_cont(c, values, kind='point'):
+    cls = _hourly_cls(True, c.get('imm'))
+    return cls(_header(c['ap'], kind, c.get('apshape', 'ctor')), _as_shape(values, c.get('vshape', 'list')))
 
 
 # ---------------------------------------------------------------------------------------------
@@ -297,7 +414,7 @@ def _gen_validate_hourly(ctx, count):
             if rng.random() < 0.6:
                 data.append([59 * 1440 + rng.randrange(24) * 60, len(data) + 1])    # 29 Feb
             tag = 'leap_mix'
-        out.append({'ap': ap, 'dl': dl, 'data': data, 'tag': tag})
+        out.append(_pick_shapes(rng, {'ap': ap, 'dl': dl, 'data': data, 'tag': tag}))
     return out
 
 
@@ -333,6 +450,8 @@ def _gen_keys(ctx, kind, count):
                 mi = 0 if rng.random() < 0.8 else rng.choice([15, 30, 45])
                 k = (mo, h, mi)
             keys.add(k)
+        if kind == 'mph' and rng.random() < 0.08:
+            keys = set((k[0], k[1]) for k in keys)            # (month, hour) keys without a minute
         keys = list(keys)
         rng.shuffle(keys)
         data = [[k, i + 1] for i, k in enumerate(keys)]
@@ -348,10 +467,10 @@ def _gen_keys(ctx, kind, count):
             data.append([rng.choice([0, 367, 400]), len(data) + 1])
             tag = 'bad_key'
         elif r < 0.12 and kind != 'daily':
-            data.append([13 if kind == 'monthly' else (13, 5, 0), len(data) + 1])
+            data.append([13 if kind == 'monthly' else (13, 5, 0)[:len(data[0][0])], len(data) + 1])
             tag = 'bad_key'
-        out.append({'ap': ap, 'data': [[list(k) if isinstance(k, tuple) else k, v] for k, v in data],
-                    'tag': tag})
+        out.append(_pick_shapes(rng, {'ap': ap, 'data': [[list(k) if isinstance(k, tuple) else k, v] for k, v in data],
+                                      'tag': tag}))
     return out
 
 
@@ -371,6 +490,12 @@ def _gen_holes(ctx, count):
     out = []
     for _ in range(count):
         ap = _gen_period(rng, full_day=True, short=rng.random() < 0.9)
+        if rng.random() < 0.2:
+            # the far end of the year (where products of hours and timesteps are largest), every timestep
+            leap = rng.random() < 0.4
+            sm, sd, em, ed = rng.choice([(12, 30, 12, 31), (12, 31, 12, 31), (12, 31, 1, 1), (12, 30, 1, 1), (12, 31, 1, 2)])
+            ap = [sm, sd, 0, em, ed, 23, rng.choice(VALID_TS), leap]
+            ctx.count('holes_gen:year_end')
         if ap[:6] == [1, 1, 0, 12, 31, 23]:
             ap[6] = rng.choice([1, 2])
         if len(_full_day_steps(ap)) > 20000:
@@ -404,14 +529,25 @@ def _gen_holes(ctx, count):
             p = rng.choice([0.2, 0.5, 0.8])
             keep = [i for i in range(n) if rng.random() < p] or [rng.randrange(n)]
         vals = [rng.randrange(-50, 200) * rng.choice([1, 1, 10]) for _ in keep]
-        if rng.random() < 0.3:
+        ints = False
+        q = rng.random()
+        if q < 0.3:
             vals = [v + rng.choice([0.5, 0.25, 0.125]) for v in vals]
+        elif q < 0.42:
+            scale = rng.choice([1e-12, 1e-6, 1e9, 1e16])        # magnitudes: judged on their own scale
+            vals = [v * scale for v in vals]
+            ctx.count('holes_gen:magnitude')
+        elif q < 0.6:
+            ints = True                                          # whole numbers given as int, not float
         data = [[steps[i], v] for i, v in zip(keep, vals)]
         validated = True
         tag = pat
         if rng.random() < 0.03:
             validated, tag = False, 'not_validated'
-        out.append({'ap': ap, 'validated': validated, 'data': data, 'tag': tag})
+        c = _pick_shapes(rng, {'ap': ap, 'validated': validated, 'data': data, 'tag': tag})
+        if ints:
+            c['ints'] = True
+        out.append(c)
     # a period with an hour window is rejected by the continuous collection
     for _ in range(max(2, count // 40)):
         ap = _gen_period(rng, short=True)
@@ -432,6 +568,10 @@ def _gen_interp(ctx, count):
     for _ in range(count):
         ap = _gen_period(rng, full_day=True, short=True)
         ap[6] = rng.choice([1, 1, 1, 2, 3, 4, 6, 12])
+        if rng.random() < 0.15:
+            leap = rng.random() < 0.4
+            sm, sd, em, ed = rng.choice([(12, 31, 12, 31), (12, 31, 1, 1), (12, 30, 12, 31)])
+            ap = [sm, sd, 0, em, ed, 23, rng.choice([1, 2, 3, 4, 5, 6, 10, 12, 15, 20, 30]), leap]
         n = len(_full_day_steps(ap))
         if n > 2500:
             ap[3], ap[4] = ap[0], ap[1]
@@ -454,9 +594,19 @@ def _gen_interp(ctx, count):
         cum = rng.choice([None, None, True, False])
         scale = rng.choice([1, 60, 3600])
         vals = [rng.randrange(-20, 100) * scale for _ in range(n)]
-        if rng.random() < 0.2:
+        ints = False
+        q = rng.random()
+        if q < 0.2:
             vals = [v + rng.choice([0.5, 0.25]) for v in vals]
-        out.append({'ap': ap, 'ts': ts, 'kind': kind, 'cum': cum, 'vals': vals, 'tag': tag})
+        elif q < 0.32:
+            m = rng.choice([1e-12, 1e-6, 1e9, 1e16])
+            vals = [v * m for v in vals]
+        elif q < 0.5:
+            ints = True
+        c = _pick_shapes(rng, {'ap': ap, 'ts': ts, 'kind': kind, 'cum': cum, 'vals': vals, 'tag': tag})
+        if ints:
+            c['ints'] = True
+        out.append(c)
     return out
 
 
@@ -495,8 +645,8 @@ def _gen_cull(ctx, count):
             flavour = 'cont' if rng.random() < 0.6 else 'dense'
         if rng.random() < 0.08:
             ts, tag = rng.choice([0, 7, 8, 24, 120]), 'invalid_target'
-        out.append({'ap': ap, 'dl': ap[7], 'data': data, 'ts': ts, 'tag': tag, 'flavour': flavour,
-                    'pair': 'divisor' if (ts and ap[6] % ts == 0) else 'non_divisor'})
+        out.append(_pick_shapes(rng, {'ap': ap, 'dl': ap[7], 'data': data, 'ts': ts, 'tag': tag, 'flavour': flavour,
+                                      'pair': 'divisor' if (ts and ap[6] % ts == 0) else 'non_divisor'}))
     return out
 
 
@@ -505,9 +655,7 @@ def _gen_cull(ctx, count):
 
 
 def _impl_vh(c):
-    from ladybug.datacollection import HourlyDiscontinuousCollection
-    coll = HourlyDiscontinuousCollection(_header(c['ap']), [v for _, v in c['data']],
-                                         [_mk_dt(c['dl'], m) for m, _ in c['data']])
+    coll = _build_disc(c, [v for _, v in c['data']], [m for m, _ in c['data']], c['dl'])
     v = coll.validate_analysis_period()
     return 'ok %s %d%s' % (_show_ap(v.header.analysis_period), len(v.values),
                            ''.join(' %d %d' % (d.moy, x) for d, x in zip(v.datetimes, v.values)))
@@ -515,13 +663,14 @@ def _impl_vh(c):
 
 def _impl_keys(cls_name):
     def run(c):
-        import ladybug.datacollection as dc
-        cls = getattr(dc, cls_name)
+        cls = _key_cls(cls_name, c.get('imm'))
         keys = [tuple(k) if isinstance(k, list) else k for k, _ in c['data']]
-        coll = cls(_header(c['ap']), [v for _, v in c['data']], keys)
+        coll = cls(_header(c['ap'], 'point', c.get('apshape', 'ctor')),
+                   _as_shape([v for _, v in c['data']], c.get('vshape', 'list')), _as_shape(keys, c.get('dshape', 'list')))
         v = coll.validate_analysis_period()
         if cls_name == 'MonthlyPerHourCollection':
-            items = ''.join(' %d-%d-%d %d' % (k[0], k[1], k[2], x) for k, x in zip(v.datetimes, v.values))
+            items = ''.join(' %d-%d-%d %d' % (k[0], k[1], k[2] if len(k) > 2 else 0, x)
+                            for k, x in zip(v.datetimes, v.values))
         else:
             items = ''.join(' %d %d' % (k, x) for k, x in zip(v.datetimes, v.values))
         return 'ok %s %d%s' % (_show_ap(v.header.analysis_period), len(v.values), items)
@@ -529,11 +678,9 @@ def _impl_keys(cls_name):
 
 
 def _cull_source(c):
-    from ladybug.datacollection import HourlyDiscontinuousCollection, HourlyContinuousCollection
     if c.get('flavour') == 'cont':
-        return HourlyContinuousCollection(_header(c['ap']), [v for _, v in c['data']])
-    return HourlyDiscontinuousCollection(_header(c['ap']), [v for _, v in c['data']],
-                                         [_mk_dt(c['dl'], m) for m, _ in c['data']])
+        return _build_cont(c, [v for _, v in c['data']])
+    return _build_disc(c, [v for _, v in c['data']], [m for m, _ in c['data']], c['dl'])
 
 
 def _impl_cull(c):
@@ -543,19 +690,21 @@ def _impl_cull(c):
                            ''.join(' %d %d' % (d.moy, x) for d, x in zip(v.datetimes, v.values)))
 
 
+def _num(c, v):
+    """A value as the case wants it typed: float (default) or as it stands (whole numbers stay int)."""
+    return v if c.get('ints') else float(v)
+
+
 def _impl_holes(c):
-    from ladybug.datacollection import HourlyDiscontinuousCollection
     leap = c['ap'][7]
-    coll = HourlyDiscontinuousCollection(_header(c['ap']), [float(v) for _, v in c['data']],
-                                         [_mk_dt(leap, m) for m, _ in c['data']])
-    coll._validated_a_period = bool(c['validated'])
+    coll = _build_disc(c, [_num(c, v) for _, v in c['data']], [m for m, _ in c['data']], leap)
+    coll._validated_a_period = bool(c.get('validated', True))
     r = coll.interpolate_holes()
     return ('ok', None, list(r.values))
 
 
 def _impl_interp(c):
-    from ladybug.datacollection import HourlyContinuousCollection
-    coll = HourlyContinuousCollection(_header(c['ap'], c['kind']), [float(v) for v in c['vals']])
+    coll = _build_cont(c, [_num(c, v) for v in c['vals']], c['kind'])
     r = coll.interpolate_to_timestep(c['ts'], c['cum'])
     return ('ok', _show_ap(r.header.analysis_period), list(r.values))
 
@@ -580,6 +729,7 @@ def _compare_exact(ctx, op, cases, model_line, impl_fn):
         ctx.compared += 1
         ctx.count('op:' + op)
         ctx.count('%s:%s' % (op, c.get('tag', 'ok')))
+        _count_shapes(ctx, op, c)
         if 'flavour' in c:
             ctx.count('%s:%s:%s' % (op, c['flavour'], c.get('pair', '')))
         ctx.case((op, line), nontrivial=not io.startswith('err:'))
@@ -608,6 +758,7 @@ def _compare_num(ctx, op, cases, model_line, impl_fn):
         ctx.compared += 1
         ctx.count('op:' + op)
         ctx.count('%s:%s' % (op, c.get('tag', 'ok')))
+        _count_shapes(ctx, op, c)
         ok_impl = not isinstance(io, str)
         ctx.case((op, line), nontrivial=ok_impl)
         if not ok_impl:
@@ -625,11 +776,20 @@ def _compare_num(ctx, op, cases, model_line, impl_fn):
             if good:
                 n = int(toks[k])
                 mv = [Fraction(t) for t in toks[k + 1:]]
-                good = n == len(mv) == len(io[2]) and all(_close(float(a), b) for a, b in zip(mv, io[2]))
+                src = [x for _, x in c['data']] if 'data' in c else c['vals']
+                tol = 1e-9 * max([abs(float(x)) for x in src] or [0.0])      # relative to the data's own scale
+                good = n == len(mv) == len(io[2]) and all(abs(float(a) - b) <= tol for a, b in zip(mv, io[2]))
         if not good:
             ctx.disagree(op, {'case': c, 'line': line[:400]}, mo[:400], repr(io)[:400])
     if cases:
         ctx.sample({'op': op, 'request': lines[0][:300], 'model': outs[0][:300]})
+
+
+def extract(ctx):
+    """Translator part: whether the continuous class refuses an in-place cull to a timestep that does not
+    divide its own is read off datacollection.py (Gen/ResampleSrc.lean; the object machine follows it)."""
+    from tools.extract import resample_src
+    ctx.resample_src = resample_src.extract()
 
 
 def _tick(ctx, what):
@@ -665,7 +825,8 @@ def _correspondence(ctx):
     cases = _gen_keys(ctx, 'mph', ctx.n(500, 5000))
     _compare_exact(ctx, 'vp', cases,
                    lambda c: 'vp %s %d%s' % (_ap_line(c['ap']), len(c['data']),
-                                             ''.join(' %d %d %d %d' % (k[0], k[1], k[2], v) for k, v in c['data'])),
+                                             ''.join(' %d %d %d %d' % (k[0], k[1], k[2] if len(k) > 2 else 0, v)
+                                                     for k, v in c['data'])),
                    _impl_keys('MonthlyPerHourCollection'))
     _tick(ctx, 'vp done')
     cases = [c for op, c in _corpus() if op == 'cull'] + _gen_cull(ctx, ctx.n(600, 5000))
@@ -675,7 +836,7 @@ def _correspondence(ctx):
     _tick(ctx, 'cull done')
     cases = [c for op, c in _corpus() if op == 'holes'] + _gen_holes(ctx, ctx.n(350, 3000))
     _compare_num(ctx, 'holes', cases,
-                 lambda c: 'holes %s %s %d%s' % (_ap_line(c['ap']), _b(c['validated']), len(c['data']),
+                 lambda c: 'holes %s %s %d%s' % (_ap_line(c['ap']), _b(c.get('validated', True)), len(c['data']),
                                                  ''.join(' %d %s' % (m, _rat(v)) for m, v in c['data'])),
                  _impl_holes)
     _tick(ctx, 'holes done')
@@ -739,6 +900,95 @@ def _corr_factor(ctx, rng):
 # property oracle: the statement of C13 evaluated on the real code, independent of the model
 
 
+OPT_KEYS = ('dshape', 'vshape', 'apshape', 'imm', 'ints', 'twin', 'keylen')
+
+
+def _opt(c):
+    """The optional fields of a generated case that the oracle input keeps (shapes, twin, typing)."""
+    return dict((k, c[k]) for k in OPT_KEYS if k in c)
+
+
+_TOKEN = [0]
+
+
+def _token():
+    """A value never used before in this process (a constant would be idempotent on a shared object)."""
+    import os
+    _TOKEN[0] += 1
+    return 'poke-%d-%d' % (os.getpid(), _TOKEN[0])
+
+
+def _dkey(d):
+    return d.moy if hasattr(d, 'moy') else d
+
+
+def _snap(c):
+    """Everything the property speaks about, of one collection."""
+    from ladybug.datacollection import HourlyContinuousCollection
+    h = c.header
+    # (the datetimes of a continuous collection are the steps of its period: not enumerated here, which costs
+    # 10 us per step and would fill the lazily computed slot)
+    if isinstance(c, HourlyContinuousCollection) and c._datetimes is None:
+        dts = 'steps of the period'
+    else:
+        dts = [_dkey(d) for d in c.datetimes]
+        if isinstance(c, HourlyContinuousCollection) and dts == _full_day_steps(_ap_fields(h.analysis_period)):
+            dts = 'steps of the period'          # the slot has been filled: the same public state
+    return (_ap_fields(h.analysis_period), dts, list(c.values), dict(h.metadata), h.unit,
+            h.data_type.name, bool(c.validated_a_period))
+
+
+def _poke(c):
+    """Edit a collection in place through its public surface: a metadata entry, and the first value
+    when the collection is mutable."""
+    c.header.metadata['poke'] = _token()
+    if c.is_mutable:
+        c[0] = c[0] + 1000003
+
+
+def _alias_probe(src, res, src_before=None):
+    """A derived collection and its source do not share state: the call left the source as it was;
+    editing the result in place does not change the source; editing the source afterwards does not
+    change the result.  -> None | (what, observed)"""
+    if res is src:
+        return 'same-object', 'the derived collection is the source object itself'
+    s0 = _snap(src)
+    if src_before is not None and s0 != src_before:
+        return 'call-changed-source', 'source after the call: %s' % str(_diff_snap(src_before, s0))
+    _poke(res)
+    s1 = _snap(src)
+    if s1 != s0:
+        return 'result-edit-reaches-source', str(_diff_snap(s0, s1))
+    r0 = _snap(res)
+    _poke(src)
+    r1 = _snap(res)
+    if r1 != r0:
+        return 'source-edit-reaches-result', str(_diff_snap(r0, r1))
+    return None
+
+
+SNAP_FIELDS = ('period', 'datetimes', 'values', 'metadata', 'unit', 'data_type', 'validated')
+
+
+def _diff_snap(a, b):
+    return [(n, str(x)[:80], str(y)[:80]) for n, x, y in zip(SNAP_FIELDS, a, b) if x != y][:3]
+
+
+def _twin_of(inp):
+    """The same case on the sibling class (mutable <-> immutable), plain containers."""
+    t = dict((k, v) for k, v in inp.items() if k not in ('dshape', 'vshape', 'apshape', 'twin'))
+    t['imm'] = not inp.get('imm')
+    return t
+
+
+def _same_answer(a, b):
+    """Two siblings answered the same collection (mutability aside)."""
+    sa, sb = _snap(a), _snap(b)
+    sa[3].pop('poke', None)
+    sb[3].pop('poke', None)
+    return None if sa == sb else _diff_snap(sa, sb)
+
+
 def _contains(ap, leap_dt, moy):
     """Is the step (minute of the year, leap flag of its DateTime) a step of the period `ap`
     (AnalysisPeriod object)?  Written from the description of a period: grid, hour window, date
@@ -775,9 +1025,12 @@ def _check_validate_hourly(inp):
     ap, dl, data = inp['ap'], inp['dl'], inp['data']
     sig = {'header': _header_kind(ap), 'window': 'full' if (ap[2], ap[5]) == (0, 23) else 'partial',
            'leap_mix': bool(dl) != bool(ap[7]), 'n': 'one' if len(data) == 1 else 'many'}
+    sig.update(imm=bool(inp.get('imm')), shape='%s/%s/%s' % (inp.get('dshape', 'list'), inp.get('vshape', 'list'),
+                                                              inp.get('apshape', 'ctor')))
     moys = [m for m, _ in data]
     dup = len(set(moys)) != len(moys)
-    coll = HourlyDiscontinuousCollection(_header(ap), [v for _, v in data], [_mk_dt(dl, m) for m, _ in data])
+    coll = _build_disc(inp, [v for _, v in data], moys, dl)
+    before = _snap(coll)
     try:
         v = coll.validate_analysis_period()
     except AssertionError as e:
@@ -790,7 +1043,23 @@ def _check_validate_hourly(inp):
                 'sig': dict(sig, fail='raise')}
     if dup:
         return {'required': 'duplicate datetimes rejected', 'observed': 'accepted', 'sig': dict(sig, fail='dup')}
-    return _pred_validated(v, dl, data, sig)
+    f = _pred_validated(v, dl, data, sig)
+    if f:
+        return f
+    if inp.get('twin'):
+        try:
+            tw = _build_disc(_twin_of(inp), [x for _, x in data], moys, dl).validate_analysis_period()
+            d = _same_answer(v, tw)
+        except Exception as e:
+            d = '%s: %s' % (type(e).__name__, e)
+        if d:
+            return {'required': 'the mutable and the immutable collection validate to the same collection',
+                    'observed': str(d)[:300], 'sig': dict(sig, fail='twin')}
+    a = _alias_probe(coll, v, before)
+    if a:
+        return {'required': 'the validated collection and its source share no state (%s)' % a[0],
+                'observed': a[1][:300], 'sig': dict(sig, fail='alias', alias=a[0])}
+    return None
 
 
 def _pred_validated(v, dl, data, sig, header=('C', {'k': 'v'}, 'Temperature')):
@@ -824,15 +1093,20 @@ def _pred_validated(v, dl, data, sig, header=('C', {'k': 'v'}, 'Temperature')):
 
 
 def _check_validate_keys(op, inp):
-    import ladybug.datacollection as dc
-    cls = {'validate_daily': dc.DailyCollection, 'validate_monthly': dc.MonthlyCollection,
-           'validate_mph': dc.MonthlyPerHourCollection}[op]
     ap, data = inp['ap'], inp['data']
     keys = [tuple(k) if isinstance(k, list) else k for k, _ in data]
     sig = {'header': _header_kind(ap), 'n': 'one' if len(data) == 1 else 'many',
            'same_month': ap[0] == ap[3], 'window': 'full' if (ap[2], ap[5]) == (0, 23) else 'partial'}
     dup = len(set(keys)) != len(keys)
-    coll = cls(_header(ap), [v for _, v in data], keys)
+    sig.update(imm=bool(inp.get('imm')), shape='%s/%s/%s' % (inp.get('dshape', 'list'), inp.get('vshape', 'list'),
+                                                              inp.get('apshape', 'ctor')))
+
+    def build(c):
+        return _key_cls(KEY_CLASSES[op], c.get('imm'))(
+            _header(ap, 'point', c.get('apshape', 'ctor')), _as_shape([x for _, x in data], c.get('vshape', 'list')),
+            _as_shape(keys, c.get('dshape', 'list')))
+    coll = build(inp)
+    before = _snap(coll)
     try:
         v = coll.validate_analysis_period()
     except AssertionError as e:
@@ -844,7 +1118,22 @@ def _check_validate_keys(op, inp):
                 'sig': dict(sig, fail='raise')}
     if dup:
         return {'required': 'duplicates rejected', 'observed': 'accepted', 'sig': dict(sig, fail='dup')}
-    return _pred_validated_keys(op, v, list(zip(keys, [x for _, x in data])), sig)
+    f = _pred_validated_keys(op, v, list(zip(keys, [x for _, x in data])), sig)
+    if f:
+        return f
+    if inp.get('twin'):
+        try:
+            d = _same_answer(v, build(_twin_of(inp)).validate_analysis_period())
+        except Exception as e:
+            d = '%s: %s' % (type(e).__name__, e)
+        if d:
+            return {'required': 'the mutable and the immutable collection validate to the same collection',
+                    'observed': str(d)[:300], 'sig': dict(sig, fail='twin')}
+    a = _alias_probe(coll, v, before)
+    if a:
+        return {'required': 'the validated collection and its source share no state (%s)' % a[0],
+                'observed': a[1][:300], 'sig': dict(sig, fail='alias', alias=a[0])}
+    return None
 
 
 def _pred_validated_keys(op, v, pairs, sig):
@@ -875,6 +1164,7 @@ def _pred_validated_keys(op, v, pairs, sig):
         inside = []
         causes = set()
         for k in v.datetimes:
+            k = tuple(k) + (0,) * (3 - len(k))          # a (month, hour) key is on the hour
             mo_ok = (sm <= k[0] <= em) if not nap.is_reversed else (k[0] >= sm or k[0] <= em)
             h_ok = (sh <= k[1] <= eh) if sh <= eh else (k[1] >= sh or k[1] <= eh)
             grid_ok = k[2] % (60 // nap.timestep) == 0
@@ -888,7 +1178,7 @@ def _pred_validated_keys(op, v, pairs, sig):
                 causes.add('minute_after_end_hour')
         cause = '+'.join(sorted(causes))
     if op == 'validate_mph':
-        pos = [p + (k[2],) for p, k in zip(pos, v.datetimes)]
+        pos = [p + (k[2] if len(k) > 2 else 0,) for p, k in zip(pos, v.datetimes)]
         unordered = any(a >= b for a, b in zip(pos, pos[1:]))
     else:
         unordered = any(a >= b for a, b in zip(pos, pos[1:]))
@@ -904,28 +1194,55 @@ def _pred_validated_keys(op, v, pairs, sig):
 
 
 def _check_holes(inp):
-    from ladybug.datacollection import HourlyDiscontinuousCollection
     ap, data = inp['ap'], inp['data']
     leap = ap[7]
     steps = _full_day_steps(ap)
     pos = {m: i for i, m in enumerate(steps)}
     sig = {'header': _header_kind(ap), 'ts': 'hourly' if ap[6] == 1 else 'sub',
-           'leading': data[0][0] != steps[0], 'via': inp.get('via', 'flag')}
-    coll = HourlyDiscontinuousCollection(_header(ap), [float(v) for _, v in data],
-                                         [_mk_dt(leap, m) for m, _ in data])
-    if inp.get('via') == 'validate':
-        coll = coll.validate_analysis_period()
-        if _ap_fields(coll.header.analysis_period) != ap:
-            return {'required': 'validation keeps a fitting header', 'observed': str(coll.header.analysis_period),
-                    'sig': dict(sig, fail='validate')}
-    else:
-        coll._validated_a_period = True
+           'leading': data[0][0] != steps[0], 'via': inp.get('via', 'flag'), 'imm': bool(inp.get('imm'))}
+
+    def build(c):
+        coll = _build_disc(c, [_num(c, v) for _, v in data], [m for m, _ in data], leap)
+        if c.get('via') == 'validate':
+            coll = coll.validate_analysis_period()
+            if c.get('imm'):
+                coll = _hourly_cls(False, True)(coll.header, coll.values, coll.datetimes)
+                coll._validated_a_period = True
+        else:
+            coll._validated_a_period = True
+        return coll
+    coll = build(inp)
+    if inp.get('via') == 'validate' and _ap_fields(coll.header.analysis_period) != ap:
+        return {'required': 'validation keeps a fitting header', 'observed': str(coll.header.analysis_period),
+                'sig': dict(sig, fail='validate')}
+    before = _snap(coll)
     try:
         r = coll.interpolate_holes()
     except Exception as e:
         return {'required': 'continuous collection', 'observed': '%s: %s' % (type(e).__name__, e),
                 'sig': dict(sig, fail='raise')}
-    return _pred_holes(r, ap, data, sig)
+    f = _pred_holes(r, ap, data, sig)
+    if f:
+        return f
+    if inp.get('twin'):
+        try:
+            d = _same_answer(r, build(_twin_of(inp)).interpolate_holes())
+        except Exception as e:
+            d = '%s: %s' % (type(e).__name__, e)
+        if d:
+            return {'required': 'the mutable and the immutable collection are filled to the same collection',
+                    'observed': str(d)[:300], 'sig': dict(sig, fail='twin')}
+    a = _alias_probe(coll, r, before)
+    if a:
+        return {'required': 'the filled collection and its source share no state (%s)' % a[0],
+                'observed': a[1][:300], 'sig': dict(sig, fail='alias', alias=a[0])}
+    # a continuous collection has no holes: it answers a copy of itself (the sibling override)
+    r2 = r.interpolate_holes()
+    d = _same_answer(r, r2) if r2 is not r else [('same-object',)]
+    if d:
+        return {'required': 'filling a continuous collection answers an equal copy', 'observed': str(d)[:300],
+                'sig': dict(sig, fail='cont_copy')}
+    return None
 
 
 def _pred_holes(r, ap, data, sig):
@@ -953,7 +1270,7 @@ def _pred_holes(r, ap, data, sig):
             if idx[j - 1] == k:
                 continue
             want = (min(a, b), max(a, b))
-        tol = 1e-9 * max(1.0, abs(want[0]), abs(want[1]))
+        tol = 1e-9 * max(abs(want[0]), abs(want[1]))           # relative: tiny data are judged on their own scale
         if not (want[0] - tol <= out[k] <= want[1] + tol):
             return {'required': 'value at step %d between %r and %r' % (k, want[0], want[1]), 'observed': out[k],
                     'sig': dict(sig, fail='between', where='lead' if k < idx[0] else 'trail' if k > idx[-1] else 'hole')}
@@ -965,7 +1282,6 @@ def _check_interp(inp):
     (cumulative=True/False) or, by default, when the data type is cumulative – then the total is
     conserved; otherwise point-in-time types keep their values at the original steps and the other
     (averaged) types keep their mean."""
-    from ladybug.datacollection import HourlyContinuousCollection
     ap, ts, kind, vals = inp['ap'], inp['ts'], inp['kind'], inp['vals']
     cum = inp.get('cum')
     native_cum, pit = _kind_flags(kind)
@@ -974,12 +1290,29 @@ def _check_interp(inp):
     sig = {'kind': kind, 'type_cumulative': native_cum, 'type_point_in_time': pit,
            'cum_arg': 'default' if cum is None else str(bool(cum)),
            'source': 'hourly' if ap[6] == 1 else 'sub', 'header': _header_kind(ap)}
-    coll = HourlyContinuousCollection(_header(ap, kind), [float(v) for v in vals])
+    sig['imm'] = bool(inp.get('imm'))
+    coll = _build_cont(inp, [_num(inp, v) for v in vals], kind)
+    before = _snap(_build_cont(inp, [_num(inp, v) for v in vals], kind))
     try:
         new = coll.interpolate_to_timestep(ts, cum)
     except Exception as e:
         return {'required': 'refined collection', 'observed': '%s: %s' % (type(e).__name__, e), 'sig': dict(sig, fail='raise')}
-    return _pred_interp(new, ap, ts, vals, as_cum, pit, sig)
+    f = _pred_interp(new, ap, ts, vals, as_cum, pit, sig)
+    if f:
+        return f
+    if inp.get('twin'):
+        try:
+            d = _same_answer(new, _build_cont(_twin_of(inp), [_num(inp, v) for v in vals], kind).interpolate_to_timestep(ts, cum))
+        except Exception as e:
+            d = '%s: %s' % (type(e).__name__, e)
+        if d:
+            return {'required': 'the mutable and the immutable collection are refined to the same collection',
+                    'observed': str(d)[:300], 'sig': dict(sig, fail='twin')}
+    a = _alias_probe(coll, new, before)
+    if a:
+        return {'required': 'the refined collection and its source share no state (%s)' % a[0],
+                'observed': a[1][:300], 'sig': dict(sig, fail='alias', alias=a[0])}
+    return None
 
 
 def _pred_interp(new, ap, ts, vals, as_cum, pit, sig):
@@ -991,7 +1324,7 @@ def _pred_interp(new, ap, ts, vals, as_cum, pit, sig):
         return {'required': '%d values at timestep %d' % (len(vals) * r, ts), 'observed': len(out), 'sig': dict(sig, fail='length')}
     if as_cum:
         a, b = sum(Fraction(x) for x in out), sum(Fraction(v) for v in vals)
-        if abs(a - b) > Fraction(1, 10 ** 9) * max(1, abs(b), sum(abs(Fraction(v)) for v in vals)):
+        if abs(a - b) > Fraction(1, 10 ** 9) * sum(abs(Fraction(v)) for v in vals):
             return {'required': 'total %s' % float(b), 'observed': float(a), 'sig': dict(sig, fail='total')}
     elif pit:
         for k, v in enumerate(vals):
@@ -999,37 +1332,82 @@ def _pred_interp(new, ap, ts, vals, as_cum, pit, sig):
                 return {'required': 'new[%d] == old[%d] == %r' % (k * r, k, v), 'observed': out[k * r], 'sig': dict(sig, fail='point')}
     else:
         a, b = sum(Fraction(x) for x in out) / len(out), sum(Fraction(v) for v in vals) / len(vals)
-        if abs(a - b) > Fraction(1, 10 ** 9) * max(1, abs(b), max(abs(Fraction(v)) for v in vals)):
+        if abs(a - b) > Fraction(1, 10 ** 9) * max(abs(Fraction(v)) for v in vals):
             return {'required': 'mean %s' % float(b), 'observed': float(a), 'sig': dict(sig, fail='mean')}
     return None
 
 
 def _check_cull(inp):
+    """Both culls, on the class the case names (discontinuous / continuous, mutable / immutable twin):
+    exactly the steps on the coarser grid, in order, under the old period with the new timestep.  The
+    timestep argument is also given as the equal float (`2.0 == 2`): the answer may not depend on it.
+    The in-place cull of a continuous collection must leave a continuous collection: one value per
+    step of its header period (it may refuse a timestep that does not divide its own); an immutable
+    collection refuses the in-place cull and stays as it was."""
     ap, dl, data, ts = inp['ap'], inp['dl'], inp['data'], inp['ts']
-    sig = {'ts': ts, 'source_ts': ap[6], 'flavour': inp.get('flavour', 'sparse'),
+    cont, imm = inp.get('flavour') == 'cont', bool(inp.get('imm'))
+    sig = {'ts': ts, 'source_ts': ap[6], 'flavour': inp.get('flavour', 'sparse'), 'imm': imm,
            'pair': 'divisor' if ap[6] % ts == 0 else 'non_divisor'}
     want = [(m, x) for m, x in data if m % (60 // ts) == 0]
-    for via in ('cull_to_timestep', 'convert_to_culled_timestep'):
+    results = {}
+    for via in ('cull_to_timestep', 'convert_to_culled_timestep', 'cull_to_timestep:float'):
         coll = _cull_source(inp)
+        # (the snapshot of a continuous source is taken from an equal second object: reading `datetimes`
+        # would fill the lazily computed slot of the object under test before the call)
+        before = _snap(_cull_source(inp) if cont else coll)
+        arg = float(ts) if via.endswith(':float') else ts
         try:
-            if via == 'cull_to_timestep':
-                v = coll.cull_to_timestep(ts)
+            if via.startswith('cull_to_timestep'):
+                v = coll.cull_to_timestep(arg)
             else:
-                coll.convert_to_culled_timestep(ts)
+                coll.convert_to_culled_timestep(arg)
                 v = coll
         except Exception as e:
-            if via == 'cull_to_timestep' and isinstance(e, AssertionError) and not want:
+            if via.startswith('cull_to_timestep') and isinstance(e, AssertionError) and not want:
                 continue              # nothing is on the coarser grid: an empty collection cannot be built
-            return {'required': 'culled collection', 'observed': '%s: %s' % (type(e).__name__, e),
-                    'sig': dict(sig, fail='raise', via=via)}
+            if via.endswith(':float'):
+                continue              # a float timestep may be refused; only a DIFFERENT answer is judged
+            unchanged = _snap(coll) == before
+            if via == 'convert_to_culled_timestep' and unchanged and (
+                    (imm and isinstance(e, AttributeError)) or
+                    (cont and isinstance(e, AssertionError) and ap[6] % ts != 0)):
+                continue              # refused, nothing changed: immutable twin / a continuous collection cannot hold those steps
+            return {'required': 'culled collection' + ('' if unchanged else ' (or a refusal that changes nothing)'),
+                    'observed': '%s: %s' % (type(e).__name__, e), 'sig': dict(sig, fail='raise', via=via, unchanged=unchanged)}
+        if via == 'convert_to_culled_timestep' and imm:
+            return {'required': 'an immutable collection refuses the in-place cull', 'observed': 'accepted',
+                    'sig': dict(sig, fail='accepted', via=via)}
         got = [(d.moy, x) for d, x in zip(v.datetimes, v.values)]
-        if got != want:
+        if got != want or len(v.values) != len(v.datetimes):
             return {'required': 'exactly the steps on the %d-minute grid, in order' % (60 // ts),
                     'observed': str(got)[:300], 'sig': dict(sig, fail='kept', via=via)}
         na = _ap_fields(v.header.analysis_period)
         if na[6] != ts or na[:6] != ap[:6] or na[7] != ap[7]:
             return {'required': 'header timestep %d, period otherwise unchanged' % ts, 'observed': str(na),
                     'sig': dict(sig, fail='header', via=via)}
+        if via == 'convert_to_culled_timestep' and cont and [m for m, _ in got] != _full_day_steps(na):
+            return {'required': 'a continuous collection culled in place still holds one value per step of its '
+                                'header period (%d steps at timestep %d)' % (len(_full_day_steps(na)), ts),
+                    'observed': '%d values under %s' % (len(got), na), 'sig': dict(sig, fail='incoherent', via=via)}
+        if via.startswith('cull_to_timestep'):
+            results[via] = _snap(v)
+            a = _alias_probe(coll, v, before)
+            if a:
+                return {'required': 'the culled collection and its source share no state (%s)' % a[0],
+                        'observed': a[1][:300], 'sig': dict(sig, fail='alias', alias=a[0], via=via)}
+    if len(results) == 2 and results['cull_to_timestep'] != results['cull_to_timestep:float']:
+        return {'required': 'cull_to_timestep(%d) and cull_to_timestep(%.1f) answer the same collection' % (ts, ts),
+                'observed': str(_diff_snap(results['cull_to_timestep'], results['cull_to_timestep:float'])),
+                'sig': dict(sig, fail='arg_type')}
+    if inp.get('twin'):
+        try:
+            tw = _cull_source(_twin_of(inp)).cull_to_timestep(ts)
+            d = None if _snap(tw) == results.get('cull_to_timestep') else _diff_snap(_snap(tw), results.get('cull_to_timestep') or ())
+        except Exception as e:
+            d = None if 'cull_to_timestep' not in results else '%s: %s' % (type(e).__name__, e)
+        if d:
+            return {'required': 'the mutable and the immutable collection are culled to the same collection',
+                    'observed': str(d)[:300], 'sig': dict(sig, fail='twin')}
     return None
 
 
@@ -1330,6 +1708,7 @@ def _check_history(inp):
                 'sig': dict(sig0, fail='build:' + d[0])}
     prev = 'init'
     ops = inp['ops']
+    kept = []
     for k, op in enumerate(ops):
         name = op[0]
         status, res = _hist_apply(cur, op)
@@ -1371,7 +1750,10 @@ def _check_history(inp):
             if ts in VALID_TS and len(P['moys']) == len(P['vals']):
                 want = [(m, x) for m, x in pairs if m % (60 // ts) == 0]
                 mutable_ok = name == 'cull' or not inp_imm(cur)
-                if refused and want and mutable_ok:
+                # a continuous collection may refuse an in-place cull to a timestep that does not divide its own
+                # (it could not hold those steps; fixes/C13_continuous_cull_in_place_divisor.patch)
+                cannot_hold = name == 'convcull' and P['cont'] and P['ap'][6] % ts != 0 and status == 'err:assert'
+                if refused and want and mutable_ok and not cannot_hold:
                     return fail('raise', 'culled collection', status)
                 if not refused:
                     v = res if name == 'cull' else cur
@@ -1458,6 +1840,19 @@ def _check_history(inp):
                 newP = dict(P)
                 if name == 'to_discontinuous':
                     newP['cont'], newP['validated'] = False, True
+        # aliasing: a derived collection that is not adopted is edited in place at once (and must stay as it is
+        # then until the end of the history); an adopted one replaces the current object, which is edited
+        # after it has been left behind.  Neither edit may show in the current object.
+        if not refused and status == 'res' and res is not None:
+            try:
+                if _adopts(op):
+                    if res is not cur:
+                        _poke(cur)
+                else:
+                    _poke(res)
+                    kept.append((k, name, res, _snap(res)))
+            except Exception as e:
+                return fail('alias:edit', 'a derived collection can be edited', '%s: %s' % (type(e).__name__, e))
         # adoption
         if not refused and status == 'res' and _adopts(op):
             cur = res
@@ -1473,12 +1868,20 @@ def _check_history(inp):
             P = newP
         read_dt = (name == 'read' and bool(op[1])) or k == len(ops) - 1
         d = _spec_diff(cur, P, read_dt)
+        if not d and 'poke' in cur.header.metadata:
+            d = ('metadata', 'an edit of another collection shows in the metadata: %s' % cur.header.metadata)
         if d:
             return fail('state:' + d[0],
                         'the collection shows the state established so far (%s)' % (
                             'the refused op changed nothing' if refused else 'period %s, %d values' % (P['ap'], len(P['vals']))),
                         '%s: %s' % d)
         prev = name
+    for k, name, res, snap in kept:
+        now = _snap(res)
+        if now != snap:
+            return {'required': 'the collection answered by step %d (%s) is not changed by the later steps %s' % (
+                        k, name, [o[0] for o in ops[k + 1:]]),
+                    'observed': str(_diff_snap(snap, now))[:300], 'sig': dict(sig0, fail='alias:later', step=name)}
     return None
 
 
@@ -1869,18 +2272,19 @@ def _order_pool(ctx):
     a few generated cases of every op, histories included."""
     k = 25 if (ctx.quick and not ctx.searching) else 120
     pool = [(op, c) for op, c in _corpus()]
-    pool += [('validate_hourly', {'ap': c['ap'], 'dl': c['dl'], 'data': c['data']})
+    pool += [('validate_hourly', dict(_opt(c), ap=c['ap'], dl=c['dl'], data=c['data']))
              for c in _gen_validate_hourly(ctx, 2 * k) if c['tag'] in ('ok', 'duplicate')]
     for kind, op in (('daily', 'validate_daily'), ('monthly', 'validate_monthly'), ('mph', 'validate_mph')):
-        pool += [(op, {'ap': c['ap'], 'data': c['data']}) for c in _gen_keys(ctx, kind, k)
+        pool += [(op, dict(_opt(c), ap=c['ap'], data=c['data'])) for c in _gen_keys(ctx, kind, k)
                  if c['tag'] in ('ok', 'duplicate') and not (kind == 'daily' and not c['ap'][7] and
                                                              any(x == 366 for x, _ in c['data']))]
-    pool += [('holes', {'ap': c['ap'], 'data': c['data'], 'via': 'flag'}) for c in _gen_holes(ctx, k)
+    pool += [('holes', dict(_opt(c), ap=c['ap'], data=c['data'], via='flag')) for c in _gen_holes(ctx, k)
              if c['tag'] not in ('not_validated', 'window')]
-    pool += [('interp', {'ap': c['ap'], 'ts': c['ts'], 'kind': c['kind'], 'cum': c['cum'], 'vals': c['vals']})
+    pool += [('interp', dict(_opt(c), ap=c['ap'], ts=c['ts'], kind=c['kind'], cum=c['cum'], vals=c['vals']))
              for c in _gen_interp(ctx, k) if c['tag'] == 'ok']
-    pool += [('cull', {'ap': c['ap'], 'dl': c['dl'], 'data': c['data'], 'ts': c['ts'], 'flavour': c['flavour']})
+    pool += [('cull', dict(_opt(c), ap=c['ap'], dl=c['dl'], data=c['data'], ts=c['ts'], flavour=c['flavour']))
              for c in _gen_cull(ctx, k) if c['tag'] == 'ok']
+    pool += [('timeagg', c) for c in _gen_timeagg(ctx, k)]
     pool += [('history', c) for c in _gen_history(ctx, 3 * k)]
     pool += [('key_history', c) for c in _gen_key_history(ctx, k)]
     return pool
@@ -1940,7 +2344,259 @@ def _order_stage(ctx, pool):
             ctx.fail('order', {'order': order, 'run': name}, r.get('required'), r.get('observed'), r.get('sig'))
 
 
+# ---------------------------------------------------------------------------------------------
+# time aggregation / rate of change (anchored mechanism `_time_aggregated_collection`,
+# `_time_rate_of_change_collection`): oracle from the physics of the units, not from the data types' tables
+
+# rate type: (base unit, aggregated type, its base unit, aggregated amount per HOUR of one base unit of rate)
+AGG_FAMILIES = {
+    'Power': ('W', 'Energy', 'kWh', Fraction(1, 1000)),
+    'EnergyFlux': ('W/m2', 'EnergyIntensity', 'kWh/m2', Fraction(1, 1000)),
+    'Speed': ('m/s', 'Distance', 'm', Fraction(3600)),
+    'MassFlowRate': ('kg/s', 'Mass', 'kg', Fraction(3600)),
+    'TemperatureDelta': ('dC', 'TemperatureTime', 'degC-days', Fraction(1, 24)),
+}
+
+
+def _gen_timeagg(ctx, count):
+    rng = ctx.rng
+    out = []
+    for _ in range(count):
+        fam = rng.choice(sorted(AGG_FAMILIES))
+        cls = rng.choice(['cont', 'cont', 'disc', 'daily'])
+        leap = rng.random() < 0.3
+        if cls == 'daily':
+            ap = [1, 1, 0, 12, 31, 23, 1, leap]
+            keys = sorted(rng.sample(range(1, 367 if leap else 366), rng.choice([1, 3, 10])))
+        else:
+            ts = rng.choice(VALID_TS)
+            ap = _gen_period(rng, full_day=True, short=True)
+            ap[6], ap[3], ap[4] = ts, ap[0], ap[1]
+            steps = _full_day_steps(ap)
+            keys = steps if cls == 'cont' else sorted(rng.sample(steps, rng.choice([1, 2, 7])))
+        scale = rng.choice([1, 1, 1, 1e-12, 1e16, 0.5])
+        vals = [rng.randrange(-50, 5000) * scale for _ in keys]
+        if rng.random() < 0.1:
+            vals = [0 for _ in keys]
+        out.append(_pick_shapes(rng, {'family': fam, 'cls': cls, 'ap': ap, 'keys': keys, 'vals': vals}))
+    return out
+
+
+def _check_timeagg(inp):
+    """to_time_aggregated() multiplies a rate by the length of one step of the collection (1 / timestep
+    hours; a day for daily collections) in the units of the aggregated type; to_time_rate_of_change() is
+    its inverse; period, datetimes and the source are left alone; the immutable twin answers the same."""
+    fam, cls, ap, keys, vals = inp['family'], inp['cls'], inp['ap'], inp['keys'], inp['vals']
+    unit, agg_name, agg_unit, per_hour = AGG_FAMILIES[fam]
+    hours = Fraction(24) if cls == 'daily' else Fraction(1, ap[6])
+    k = per_hour * hours
+    sig = {'family': fam, 'cls': cls, 'imm': bool(inp.get('imm')), 'ts': ap[6]}
+
+    def build(c, kind, values):
+        hdr = _header(ap, kind, c.get('apshape', 'ctor'))
+        vs = _as_shape(values, c.get('vshape', 'list'))
+        if cls == 'cont':
+            return _hourly_cls(True, c.get('imm'))(hdr, vs)
+        if cls == 'disc':
+            return _hourly_cls(False, c.get('imm'))(hdr, vs, _as_shape([_mk_dt(ap[7], m) for m in keys], c.get('dshape', 'list')))
+        return _key_cls('DailyCollection', c.get('imm'))(hdr, vs, _as_shape(keys, c.get('dshape', 'list')))
+
+    def near(got, want):
+        want = [float(w) for w in want]
+        tol = 1e-9 * max([abs(w) for w in want] or [0.0])
+        return len(got) == len(want) and all(abs(g - w) <= tol for g, w in zip(got, want))
+
+    def shown(c):
+        return _snap(c)[:2]
+    try:
+        src = build(inp, fam, vals)
+        before = _snap(build(inp, fam, vals))
+        agg = src.to_time_aggregated()
+        back = agg.to_time_rate_of_change()
+        direct = build(inp, agg_name, vals).to_time_rate_of_change()
+    except Exception as e:
+        return {'required': 'aggregated collection and its rate of change', 'observed': '%s: %s' % (type(e).__name__, e),
+                'sig': dict(sig, fail='raise')}
+    if not near(list(agg.values), [Fraction(v) * k for v in vals]):
+        return {'required': 'values times %s (%s per hour and %s, steps of %s h)' % (float(k), float(per_hour), unit, float(hours)),
+                'observed': str(list(agg.values)[:6]), 'sig': dict(sig, fail='agg_values')}
+    if agg.header.unit != agg_unit or agg.header.data_type.name.replace(' ', '') != agg_name:
+        return {'required': '%s in %s' % (agg_name, agg_unit), 'observed': '%s in %s' % (agg.header.data_type.name, agg.header.unit),
+                'sig': dict(sig, fail='agg_header')}
+    if not near(list(back.values), vals) or back.header.unit != unit:
+        return {'required': 'the rate of change of the aggregated data is the data (%s)' % unit,
+                'observed': '%s %s' % (str(list(back.values)[:6]), back.header.unit), 'sig': dict(sig, fail='round_trip')}
+    if not near(list(direct.values), [Fraction(v) / k for v in vals]) or direct.header.unit != unit:
+        return {'required': 'values divided by %s, in %s' % (float(k), unit),
+                'observed': '%s %s' % (str(list(direct.values)[:6]), direct.header.unit), 'sig': dict(sig, fail='rate_values')}
+    for name, c in (('aggregated', agg), ('rate of change', back)):
+        if shown(c) != (before[0], before[1]) or c.is_mutable != src.is_mutable:
+            return {'required': 'the %s collection keeps period, datetimes and mutability' % name, 'observed': str(shown(c))[:200],
+                    'sig': dict(sig, fail='kept')}
+    if inp.get('twin'):
+        try:
+            d = _same_answer(agg, build(_twin_of(inp), fam, vals).to_time_aggregated())
+        except Exception as e:
+            d = '%s: %s' % (type(e).__name__, e)
+        if d:
+            return {'required': 'the mutable and the immutable collection aggregate to the same values',
+                    'observed': str(d)[:300], 'sig': dict(sig, fail='twin')}
+    a = _alias_probe(src, agg, before)
+    if a:
+        return {'required': 'the aggregated collection and its source share no state (%s)' % a[0],
+                'observed': a[1][:300], 'sig': dict(sig, fail='alias', alias=a[0])}
+    return None
+
+
+# ---------------------------------------------------------------------------------------------
+# branches of the anchored functions, decided from the INPUT (plain numbers), counted as strata
+#
+#   validate_analysis_period (hourly / daily / monthly / monthly-per-hour; names vh vd vm vp):
+#     header annual | fwd | rev;  fwd: start_extended, end_extended, fits;  rev: rotated | not_rotated,
+#     gap_made_annual, same_month_made_annual (vm vp);  st_hour_lowered, end_hour_raised (vh vp, non-annual
+#     header with a partial window);  duplicate (assert);  timestep_repaired | timestep_kept (vh vp);
+#     single;  keys2 (vp: (month, hour) keys without minute);  leap_repair (vh vd) is outside the quantifier
+#     (header with the wrong leap flag) and reached by the correspondence only
+#   interpolate_holes: lead_hole | starts_at_period_start; interior_hole; hole_through_year_end; trailing_hole;
+#     no_hole; single_source; continuous override (copy);  not validated -> refused (correspondence + history)
+#   interpolate_to_timestep: divide | no_divide (cum argument True / False / default x native flag);
+#     shift | no_shift (point-in-time);  n_sub_1, n_sub_odd (int(n/2) truncates), n_sub_even;  refused: not a
+#     multiple, non-bool cumulative (history)
+#   cull_to_timestep / convert_to_culled_timestep / _timestep_cull: continuous | discontinuous source;
+#     divisor | non_divisor | finer target; nothing_kept (refused by the constructor / empty in place);
+#     invalid timestep refused (correspondence + history); immutable in place refused
+#   _time_aggregated_collection / _time_rate_of_change_collection: hourly | daily step; the `time_class is None`
+#     / ValueError branches (types without aggregate) are NOT reached (no statement about them)
+#   Unreachable through the public API: `_xxrange` with step_count 0 other than through
+#     interpolate_to_timestep(0) (ZeroDivisionError, history op); holesGo index error (validated data always
+#     lie on the period's grid)
+
+
+def _rot_first(keys, inside_end):
+    """First key after the rotation of the wrapping branch: sorted keys rotated after the last one
+    that satisfies `inside_end`."""
+    ks = sorted(keys)
+    last = None
+    for i, k in enumerate(ks):
+        if inside_end(k):
+            last = i
+    if last is None:
+        return ks[0], False
+    ks = ks[last + 1:] + ks[:last + 1]
+    return ks[0], True
+
+
+def _branches(op, inp):
+    try:
+        return _branches_of(op, inp)
+    except Exception:
+        return ['classifier_error:' + op]
+
+
+def _branches_of(op, inp):
+    out = []
+    ap = inp.get('ap')
+    if op in ('validate_hourly', 'validate_daily', 'validate_monthly', 'validate_mph'):
+        n = {'validate_hourly': 'vh', 'validate_daily': 'vd', 'validate_monthly': 'vm', 'validate_mph': 'vp'}[op]
+        leap = ap[7]
+        wraps = (ap[3], ap[4], ap[5]) < (ap[0], ap[1], ap[2])
+        annual = (ap[0], ap[1], ap[3], ap[4]) == (1, 1, 12, 31) and (ap[2], ap[5]) == (0, 23)
+        kind = 'rev' if wraps else ('annual' if annual else 'fwd')
+        out.append('%s:header_%s' % (n, kind))
+        ks = [tuple(k) if isinstance(k, list) else k for k, _ in inp['data']]
+        if len(ks) == 1:
+            out.append(n + ':single')
+        if len(set(ks)) != len(ks):
+            out.append(n + ':duplicate')
+        sdoy, edoy = _md_to_doy(leap, ap[0], ap[1]), _md_to_doy(leap, ap[3], ap[4])
+        if op == 'validate_hourly':
+            pos = [m // 1440 + 1 for m in ks]
+            lo, hi, st, en = min(pos), max(pos), sdoy, edoy
+            end_moy = (edoy - 1) * 1440 + ap[5] * 60
+            first, rot = _rot_first(ks, lambda m: m < end_moy + 60)
+            first = first // 1440 + 1
+            hours = [m // 60 % 24 for m in ks]
+            off_grid = any(m % (60 // ap[6]) for m in ks)
+        elif op == 'validate_daily':
+            lo, hi, st, en = min(ks), max(ks), sdoy, edoy
+            first, rot = _rot_first(ks, lambda d: d <= edoy)
+            hours, off_grid = None, None
+        else:
+            mos = [k if op == 'validate_monthly' else k[0] for k in ks]
+            lo, hi, st, en = min(mos), max(mos), ap[0], ap[3]
+            if op == 'validate_monthly':
+                first, rot = _rot_first(ks, lambda m: m <= ap[3])
+                hours, off_grid = None, None
+            else:
+                f, rot = _rot_first(ks, lambda k: k[0] <= ap[3] and k[1] <= ap[5])
+                first = f[0]
+                hours = [k[1] for k in ks]
+                off_grid = any((k[2] if len(k) > 2 else 0) % (60 // ap[6]) for k in ks)
+                if any(len(k) == 2 for k in ks):
+                    out.append('vp:keys2')
+        if kind == 'fwd':
+            if lo < st:
+                out.append(n + ':fwd_start_extended')
+            if hi > en:
+                out.append(n + ':fwd_end_extended')
+            if lo >= st and hi <= en:
+                out.append(n + ':fwd_fits')
+        elif kind == 'rev':
+            out.append(n + (':rev_rotated' if rot else ':rev_not_rotated'))
+            if en < first < st:
+                out.append(n + ':rev_gap_made_annual')
+            if op in ('validate_monthly', 'validate_mph') and ap[0] == ap[3]:
+                out.append(n + ':rev_same_month_made_annual')
+        if hours is not None:
+            if kind != 'annual' and ap[2] != 0 and min(hours) < ap[2]:
+                out.append(n + ':st_hour_lowered')
+            if kind != 'annual' and ap[5] != 23 and max(hours) > ap[5]:
+                out.append(n + ':end_hour_raised')
+            out.append(n + (':timestep_repaired' if off_grid else ':timestep_kept'))
+    elif op == 'holes':
+        steps = _full_day_steps(ap)
+        pos = {m: i for i, m in enumerate(steps)}
+        idx = sorted(pos[m] for m, _ in inp['data'])
+        out.append('holes:lead_hole' if idx[0] > 0 else 'holes:starts_at_period_start')
+        if idx[-1] < len(steps) - 1:
+            out.append('holes:trailing_hole')
+        gaps = [(a, b) for a, b in zip(idx, idx[1:]) if b > a + 1]
+        if gaps:
+            out.append('holes:interior_hole')
+            if any(steps[b] < steps[a] for a, b in gaps):
+                out.append('holes:hole_through_year_end')
+        if idx == list(range(len(steps))):
+            out.append('holes:no_hole')
+        if len(idx) == 1:
+            out.append('holes:single_source')
+        out.append('holes:via_' + inp.get('via', 'flag'))
+        out.append('holes:ts_%d' % ap[6])
+        if ap[7]:
+            out.append('holes:leap')
+    elif op == 'interp':
+        native_cum, pit = _kind_flags(inp['kind'])
+        cum = inp.get('cum')
+        out.append('interp:divide' if (cum or (cum is None and native_cum)) else 'interp:no_divide')
+        out.append('interp:cum_arg_%s' % ('default' if cum is None else cum))
+        out.append('interp:no_shift' if pit else 'interp:shift')
+        r = inp['ts'] // ap[6]
+        out.append('interp:n_sub_1' if r == 1 else ('interp:n_sub_odd' if r % 2 else 'interp:n_sub_even'))
+        out.append('interp:source_ts_%d' % ap[6])
+    elif op == 'cull':
+        ts = inp['ts']
+        out.append('cull:continuous' if inp.get('flavour') == 'cont' else 'cull:discontinuous')
+        out.append('cull:divisor' if ap[6] % ts == 0 else ('cull:finer_target' if ts > ap[6] else 'cull:non_divisor'))
+        if not any(m % (60 // ts) == 0 for m, _ in inp['data']):
+            out.append('cull:nothing_kept')
+    elif op == 'timeagg':
+        out.append('timeagg:%s' % inp['cls'])
+        out.append('timeagg:family_%s' % inp['family'])
+    return out
+
+
 def check_case(op, inp):
+    if op == 'timeagg':
+        return _check_timeagg(inp)
     if op == 'validate_hourly':
         return _check_validate_hourly(inp)
     if op in ('validate_daily', 'validate_monthly', 'validate_mph'):
@@ -2025,7 +2681,74 @@ def _corpus():
                     'vals': [10 * (k % 3) for k in range(24)], 'tag': 'ok'}),
         ('interp', {'ap': [1, 1, 0, 1, 1, 23, 1, False], 'ts': 3, 'kind': 'averaged', 'cum': None,
                     'vals': [3600 * (k % 7) for k in range(24)], 'tag': 'ok'}),
-    ] + _corpus_histories()
+    ] + _corpus_round4() + _corpus_histories()
+
+
+def _corpus_round4():
+    """Round 4: one fixed input per rarely taken branch, per sibling class and per container shape."""
+    d = 171 * 1440                                    # 21 June 00:00
+    day = [6, 21, 0, 6, 21, 23, 1, False]
+    return [
+        # validation on the immutable twin, datetimes from a generator / a map object, header from text
+        ('validate_hourly', {'ap': [6, 20, 8, 6, 22, 17, 1, False], 'dl': False, 'imm': True, 'twin': True,
+                             'dshape': 'gen', 'vshape': 'tuple', 'apshape': 'string',
+                             'data': [[d + 19 * 60, 1], [d - 1440 + 9 * 60, 2], [d + 1440 + 10 * 60, 3], [d + 6 * 60, 4]]}),
+        ('validate_hourly', {'ap': [12, 30, 0, 1, 2, 23, 1, True], 'dl': True, 'dshape': 'map', 'apshape': 'repr', 'twin': True,
+                             'data': [[1440, 1], [364 * 1440 + 60, 2], [100 * 1440, 3]]}),        # wrapping, gap -> annual
+        ('validate_hourly', {'ap': [12, 30, 0, 1, 2, 23, 1, False], 'dl': False, 'dshape': 'iter', 'apshape': 'dict',
+                             'data': [[363 * 1440 + 60, 2], [363 * 1440 + 120, 3]]}),             # wrapping, nothing rotated
+        ('validate_daily', {'ap': [3, 1, 0, 3, 10, 23, 1, True], 'data': [[58, 1], [75, 2], [61, 3]], 'imm': True,
+                            'twin': True, 'dshape': 'gen'}),                                   # leap year, both ends extended
+        ('validate_daily', {'ap': [12, 20, 0, 1, 10, 23, 1, False], 'data': [[10, 1], [355, 2], [1, 3], [365, 4]],
+                            'dshape': 'map', 'apshape': 'string'}),                               # wrapping, a key on the end day
+        ('validate_daily', {'ap': [12, 20, 0, 1, 10, 23, 1, False], 'data': [[200, 1], [355, 2]], 'twin': True}),
+        ('validate_monthly', {'ap': [3, 1, 0, 6, 30, 23, 1, False], 'data': [[9, 1]], 'imm': True, 'twin': True}),
+        ('validate_monthly', {'ap': [11, 1, 0, 2, 28, 23, 1, False], 'data': [[2, 1], [12, 2], [11, 3]], 'dshape': 'iter'}),
+        ('validate_monthly', {'ap': [11, 1, 0, 2, 28, 23, 1, False], 'data': [[6, 1], [12, 2]], 'vshape': 'deque'}),
+        ('validate_mph', {'ap': [3, 1, 6, 6, 30, 18, 1, False], 'data': [[[4, 20], 1], [[2, 3], 2], [[7, 9], 3]], 'twin': True}),
+        ('validate_mph', {'ap': [1, 1, 0, 12, 31, 23, 1, False], 'data': [[[4, 20], 1], [[2, 3], 2]], 'imm': True,
+                          'dshape': 'gen'}),
+        # hole filling: immutable twin with a lead hole; leap year, hole through the year end; whole numbers as int;
+        # tiny and huge magnitudes; every timestep at the far end of the year
+        ('holes', {'ap': day, 'data': [[d + 180, 3], [d + 360, 6]], 'via': 'flag', 'imm': True, 'twin': True,
+                   'dshape': 'gen', 'vshape': 'tuple', 'ints': True}),
+        ('holes', {'ap': [12, 31, 0, 1, 1, 23, 1, True], 'data': [[365 * 1440 + 1320, 22], [120, 26]], 'via': 'flag', 'twin': True}),
+        ('holes', {'ap': [12, 31, 0, 1, 1, 23, 20, True], 'data': [[365 * 1440 + 1437, 1], [6, 4], [1437, 481]], 'via': 'flag'}),
+        ('holes', {'ap': day, 'data': [[d + 60, 3e-12], [d + 240, 9e-12], [d + 600, -6e-12]], 'via': 'flag'}),
+        ('holes', {'ap': day, 'data': [[d + 60, 3e16], [d + 240, 9e16]], 'via': 'validate', 'imm': True}),
+    ] + [('holes', {'ap': [12, 31, 0, 12, 31, 23, ts, False], 'via': 'flag', 'dshape': 'iter',
+                    'data': [[364 * 1440 + (60 // ts) * k, 7 * k] for k in (1, 4 * ts, 24 * ts - 2)]}) for ts in VALID_TS] + [
+        # refinement: immutable twin, odd number of sub-steps (shift int(n / 2)), whole numbers as int, magnitudes
+        ('interp', {'ap': day, 'ts': 3, 'kind': 'averaged', 'cum': None, 'vals': [k % 5 for k in range(24)], 'imm': True,
+                    'twin': True, 'vshape': 'tuple', 'ints': True, 'apshape': 'string'}),
+        ('interp', {'ap': [12, 31, 0, 12, 31, 23, 4, True], 'ts': 20, 'kind': 'cumulative', 'cum': None,
+                    'vals': [(k * 7) % 11 for k in range(96)], 'ints': True, 'twin': True}),
+        ('interp', {'ap': day, 'ts': 5, 'kind': 'point', 'cum': None, 'vals': [1e-12 * (k % 7) for k in range(24)]}),
+        ('interp', {'ap': day, 'ts': 2, 'kind': 'cumulative', 'cum': False, 'vals': [1e16 * (k % 7) for k in range(24)], 'imm': True}),
+        ('interp', {'ap': day, 'ts': 1, 'kind': 'averaged', 'cum': True, 'vals': [k for k in range(24)]}),      # n_sub = 1
+        # culling: immutable twins, one-shot datetimes, nothing on the coarser grid, finer target
+        ('cull', {'ap': [7, 14, 0, 7, 14, 23, 6, False], 'dl': False, 'ts': 3, 'flavour': 'cont', 'imm': True, 'twin': True,
+                  'vshape': 'tuple', 'data': [[(194 * 1440) + 10 * k, k + 1] for k in range(144)]}),
+        ('cull', {'ap': [7, 14, 0, 7, 14, 23, 4, False], 'dl': False, 'ts': 2, 'flavour': 'sparse', 'imm': True, 'twin': True,
+                  'dshape': 'gen', 'data': [[(194 * 1440) + 15 * k, k + 1] for k in (7, 2, 90, 3, 40)]}),
+        ('cull', {'ap': [7, 14, 0, 7, 14, 23, 4, False], 'dl': False, 'ts': 1, 'flavour': 'sparse', 'dshape': 'map',
+                  'data': [[(194 * 1440) + 15 + 60 * k, k + 1] for k in range(5)]}),
+        ('cull', {'ap': [7, 14, 0, 7, 14, 23, 2, False], 'dl': False, 'ts': 4, 'flavour': 'cont',
+                  'data': [[(194 * 1440) + 30 * k, k + 1] for k in range(48)]}),
+        # time aggregation and its inverse on every class
+        ('timeagg', {'family': 'Power', 'cls': 'cont', 'ap': [6, 21, 0, 6, 21, 23, 4, False], 'twin': True,
+                     'keys': [d + 15 * k for k in range(96)], 'vals': [100 * (k % 9) for k in range(96)]}),
+        ('timeagg', {'family': 'Speed', 'cls': 'disc', 'ap': [6, 21, 0, 6, 21, 23, 6, False], 'imm': True, 'twin': True,
+                     'dshape': 'gen', 'keys': [d + 10, d + 50, d + 600], 'vals': [2, 0.5, 7]}),
+        ('timeagg', {'family': 'Power', 'cls': 'daily', 'ap': [1, 1, 0, 12, 31, 23, 1, False], 'imm': True, 'twin': True,
+                     'keys': [1, 59, 365], 'vals': [1000, 250, 40]}),
+        ('timeagg', {'family': 'TemperatureDelta', 'cls': 'daily', 'ap': [1, 1, 0, 12, 31, 23, 1, True],
+                     'keys': [60, 366], 'vals': [3, 12]}),
+        ('timeagg', {'family': 'MassFlowRate', 'cls': 'cont', 'ap': [6, 21, 0, 6, 21, 23, 1, False], 'imm': True,
+                     'keys': [d + 60 * k for k in range(24)], 'vals': [1e-12 * k for k in range(24)]}),
+        ('timeagg', {'family': 'EnergyFlux', 'cls': 'disc', 'ap': [6, 21, 0, 6, 21, 23, 60, False],
+                     'keys': [d + 1, d + 59], 'vals': [600, 1e16]}),
+    ]
 
 
 def _corpus_histories():
@@ -2069,58 +2792,98 @@ def _corpus_histories():
     return [('history', h) for h in hs]
 
 
+def _tw(rng):
+    """Every fourth oracle case is also run on the sibling class and the two answers are compared."""
+    return {'twin': True} if rng.random() < 0.25 else {}
+
+
+BROKEN_TO_OP = {'vh': 'validate_hourly', 'vd': 'validate_daily', 'vm': 'validate_monthly', 'vp': 'validate_mph',
+                'cull': 'cull', 'holes': 'holes', 'interp': 'interp', 'agg': 'timeagg', 'rate': 'timeagg',
+                'hist': 'history'}
+
+
 def _oracle_cases(ctx):
+    """The oracle stream: the fixed corpus, then one generated block per op.  When a tie has broken
+    (`ctx.searching`) the blocks of the ops whose correspondence disagreed come first, so that the
+    failing input is found before the long blocks of the other ops are evaluated."""
     rng = ctx.rng
     big = ctx.searching or not ctx.quick
     for op, c in _corpus():
         yield op, c
-    for c in _gen_validate_hourly(ctx, 8000 if big else 1000):
-        if c['tag'] in ('empty',):
-            continue
-        if c['tag'] == 'leap_mix':
-            continue                       # outside the quantifier (header with the wrong leap flag)
-        yield 'validate_hourly', {'ap': c['ap'], 'dl': c['dl'], 'data': c['data']}
-    for kind, op in (('daily', 'validate_daily'), ('monthly', 'validate_monthly'), ('mph', 'validate_mph')):
-        for c in _gen_keys(ctx, kind, 3000 if big else 400):
-            if c['tag'] in ('empty', 'bad_key'):
+
+    def b_hourly():
+        for c in _gen_validate_hourly(ctx, 8000 if big else 1000):
+            if c['tag'] in ('empty',):
                 continue
-            if kind == 'daily' and not c['ap'][7] and any(k == 366 for k, _ in c['data']):
-                continue                   # header with the wrong leap flag: outside the quantifier
-            yield op, {'ap': c['ap'], 'data': c['data']}
-    for c in _gen_holes(ctx, 2000 if big else 300):
-        if c['tag'] in ('not_validated', 'window'):
-            continue
-        via = 'validate' if rng.random() < 0.4 else 'flag'
-        data = list(c['data'])
-        if via == 'validate' and _header_kind(c['ap']) != 'annual':
-            # validation keeps a header that already fits when the first and the last day hold data
-            rng.shuffle(data)
-        elif via == 'validate':
-            rng.shuffle(data)
-        yield 'holes', {'ap': c['ap'], 'data': c['data'] if via == 'flag' else data, 'via': via}
-    # every data type x cumulative=None/True/False on one small day (deterministic sweep)
-    for i, name in enumerate(_all_type_names()):
-        src = [1, 2, 3][i % 3]
-        tgt = {1: [2, 3, 4], 2: [4, 6], 3: [6, 12]}[src][i % 2]
-        nv = 24 * src
-        for cum in (None, True, False):
-            yield 'interp', {'ap': [6, 21, 0, 6, 21, 23, src, False], 'ts': tgt, 'kind': name, 'cum': cum,
-                             'vals': [3600 * ((k * 7 + i) % 11) for k in range(nv)]}
-    for c in _gen_interp(ctx, 1500 if big else 350):
-        if c['tag'] != 'ok':
-            continue
-        yield 'interp', {'ap': c['ap'], 'ts': c['ts'], 'kind': c['kind'], 'cum': c['cum'], 'vals': c['vals']}
-    for c in _gen_cull(ctx, 3000 if big else 400):
-        if c['tag'] != 'ok':
-            continue
-        yield 'cull', {'ap': c['ap'], 'dl': c['dl'], 'data': c['data'], 'ts': c['ts'], 'flavour': c['flavour']}
-    for c in _gen_history(ctx, 3000 if big else 450):
-        ctx.count('oracle_hist:template:%s' % c.pop('tag', '?'))
-        ctx.count('oracle_hist:init:%s%s%s' % (c['cls'], ':imm' if c['imm'] else '', ':flag' if c['flag'] else ''))
-        yield 'history', c
-    for c in _gen_key_history(ctx, 1500 if big else 120):
-        ctx.count('oracle_key_hist:%s' % c['op'])
-        yield 'key_history', c
+            if c['tag'] == 'leap_mix':
+                continue                       # outside the quantifier (header with the wrong leap flag)
+            yield 'validate_hourly', dict(_opt(c), ap=c['ap'], dl=c['dl'], data=c['data'], **_tw(rng))
+
+    def b_keys(kind, op):
+        def block():
+            for c in _gen_keys(ctx, kind, 3000 if big else 400):
+                if c['tag'] in ('empty', 'bad_key'):
+                    continue
+                if kind == 'daily' and not c['ap'][7] and any(k == 366 for k, _ in c['data']):
+                    continue                   # header with the wrong leap flag: outside the quantifier
+                yield op, dict(_opt(c), ap=c['ap'], data=c['data'], **_tw(rng))
+        return block
+
+    def b_holes():
+        for c in _gen_holes(ctx, 2000 if big else 300):
+            if c['tag'] in ('not_validated', 'window'):
+                continue
+            via = 'validate' if rng.random() < 0.4 else 'flag'
+            data = list(c['data'])
+            if via == 'validate':
+                rng.shuffle(data)
+            yield 'holes', dict(_opt(c), ap=c['ap'], data=c['data'] if via == 'flag' else data, via=via, **_tw(rng))
+
+    def b_interp():
+        # every data type x cumulative=None/True/False on one small day (deterministic sweep)
+        for i, name in enumerate(_all_type_names()):
+            src = [1, 2, 3][i % 3]
+            tgt = {1: [2, 3, 4], 2: [4, 6], 3: [6, 12]}[src][i % 2]
+            nv = 24 * src
+            for cum in (None, True, False):
+                yield 'interp', {'ap': [6, 21, 0, 6, 21, 23, src, False], 'ts': tgt, 'kind': name, 'cum': cum,
+                                 'vals': [3600 * ((k * 7 + i) % 11) for k in range(nv)]}
+        for c in _gen_interp(ctx, 1500 if big else 350):
+            if c['tag'] != 'ok':
+                continue
+            yield 'interp', dict(_opt(c), ap=c['ap'], ts=c['ts'], kind=c['kind'], cum=c['cum'], vals=c['vals'], **_tw(rng))
+
+    def b_cull():
+        for c in _gen_cull(ctx, 3000 if big else 400):
+            if c['tag'] != 'ok':
+                continue
+            yield 'cull', dict(_opt(c), ap=c['ap'], dl=c['dl'], data=c['data'], ts=c['ts'], flavour=c['flavour'], **_tw(rng))
+
+    def b_timeagg():
+        for c in _gen_timeagg(ctx, 1200 if big else 150):
+            yield 'timeagg', dict(c, **_tw(rng))
+
+    def b_history():
+        for c in _gen_history(ctx, 3000 if big else 450):
+            ctx.count('oracle_hist:template:%s' % c.pop('tag', '?'))
+            ctx.count('oracle_hist:init:%s%s%s' % (c['cls'], ':imm' if c['imm'] else '', ':flag' if c['flag'] else ''))
+            yield 'history', c
+
+    def b_key_history():
+        for c in _gen_key_history(ctx, 1500 if big else 120):
+            ctx.count('oracle_key_hist:%s' % c['op'])
+            yield 'key_history', c
+
+    blocks = [('validate_hourly', b_hourly), ('validate_daily', b_keys('daily', 'validate_daily')),
+              ('validate_monthly', b_keys('monthly', 'validate_monthly')), ('validate_mph', b_keys('mph', 'validate_mph')),
+              ('holes', b_holes), ('interp', b_interp), ('cull', b_cull), ('timeagg', b_timeagg),
+              ('history', b_history), ('key_history', b_key_history)]
+    first = set(BROKEN_TO_OP.get(b.get('what')) for b in getattr(ctx, 'broken', []) if isinstance(b, dict))
+    if first:
+        blocks.sort(key=lambda nb: nb[0] not in first)          # stable: the broken ops first
+    for _, block in blocks:
+        for case in block():
+            yield case
 
 
 def oracle(ctx):
@@ -2131,16 +2894,23 @@ def oracle(ctx):
     from harness import core
     known = core.load_known(PROP)
     seen = {}
+    fresh = 0
     with contextlib.redirect_stdout(io.StringIO()):
         for op, inp in _oracle_cases(ctx):
-            if len(ctx.failures) >= 200:
-                break
+            if len(ctx.failures) >= 200 or fresh >= 12:
+                break               # enough failing inputs for a replay: stop the search
             try:
                 res = check_case(op, inp)
             except Exception as e:
                 res = {'required': 'oracle evaluates', 'observed': 'exception %s: %s' % (type(e).__name__, e),
                        'sig': {'exception': type(e).__name__}}
             ctx.count('oracle:' + op)
+            for b in _branches(op, inp):
+                ctx.count('branch:' + b)
+            if op not in ('history', 'key_history', 'order'):
+                _count_shapes(ctx, 'oracle_' + op, inp)
+                if inp.get('twin'):
+                    ctx.count('twin_compared:' + op)
             ctx.case((op, json.dumps(inp, sort_keys=True, default=str)))
             if res:
                 sig = dict(res.get('sig') or {}, op=op)
@@ -2150,11 +2920,13 @@ def oracle(ctx):
                     ctx.count('known_finding:' + hit)
                     if seen[hit] > 3:
                         continue
+                else:
+                    fresh += 1
                 ctx.fail(op, inp, res.get('required'), res.get('observed'), res.get('sig'))
             elif ctx.evaluations % 997 == 1:
                 ctx.sample({'oracle': op, 'input': inp}, limit=12)
         _tick(ctx, 'oracle stream done')
-        if len(ctx.failures) < 200:
+        if len(ctx.failures) < 200 and fresh == 0:
             _order_stage(ctx, _order_pool(ctx))
         _tick(ctx, 'order stage done')
 
@@ -2164,8 +2936,10 @@ LEVEL_TEXT = ('Machine-checked Lean 4 theorems over an executable model of the v
               'listed there as proved, proved in part, or compared only). The model is compared with the '
               'real classes on boundary-biased generated collections on every run.')
 LEVEL_NOTE = ('Trusted: Lean kernel; axioms propext/Classical.choice/Quot.sound only; the hand-written model '
-              '(tied by the correspondence run on generated inputs only); the C04/C08 models it builds on; '
-              'float interpolation compared within 1e-9, theorems over exact rationals. The model describes '
-              'the code with the ten fixes/C13_*.patch repairs.')
+              '(tied by the correspondence run on generated inputs only; one Boolean about the in-place cull of the '
+              'continuous class is translated from the source); the C04/C08 models it builds on; '
+              'float interpolation compared within 1e-9 of the data scale, theorems over exact rationals. The model '
+              'describes the code with the ten committed fixes/C13_*.patch repairs and follows the source on the eleventh '
+              '(C13_continuous_cull_in_place_divisor, proposed).')
 TECHNIQUE = ('Lean 4 proof (permutation/sortedness of merge sort and rotation, C04 membership predicate of the '
              'output period, equally spaced cyclic step grid + induction over the hole list, telescoping sums over Rat) about a model tied to datacollection.py by differential correspondence')
